@@ -1,6 +1,7 @@
 // C16 — lifecycle: safe shutdown sequence, threads joined once, no leaks, restartable.
 #include "common.h"
 #include "cfggen.h"
+#include "cfgmut.h"
 
 namespace {
 
@@ -110,8 +111,13 @@ struct C16 : Prop {
 			static const char *names[3] = {"board", "track", "train"};
 			const char *which = names[r.below(3)];
 			std::string txt = bad.gets(which);
-			J ft = J::obj(); J g = J::obj(); g.set("kind", "enoent"); ft.set(which, g); (void) txt;
-			bad.set("faults", ft);
+			uint64_t how = r.below(100);
+			std::string tr = bad.gets("train"); size_t bp = std::string::npos;
+			{ std::vector<size_t> hits; for (size_t p0 = tr.find("bit: "); p0 != std::string::npos; p0 = tr.find("bit: ", p0 + 1)) hits.push_back(p0); if (!hits.empty()) bp = hits[r.below(hits.size())]; }
+			if (how < 45 || (how < 80 && bp == std::string::npos)) { J ft = J::obj(); J g = J::obj(); g.set("kind", "enoent"); ft.set(which, g); (void) txt; bad.set("faults", ft); }
+			else if (how < 60) { bad.set("train", tr.substr(0, bp + 4)); plan.set("badcfg_kind", "train file ends after a peripheral's 'bit:' key"); }                         // torn write
+			else if (how < 80) { size_t eol = tr.find('\n', bp); bad.set("train", tr.substr(0, bp + 5) + "0x40" + (eol == std::string::npos ? "" : tr.substr(eol))); plan.set("badcfg_kind", "peripheral bit out of range"); }
+			else { std::vector<std::string> ls = cfgmut::split_lines(txt); size_t at = ls.empty() ? 0 : (size_t) r.below(ls.size()); ls.insert(ls.begin() + (long) at, "  @@@: [ {"); bad.set(which, cfgmut::join_lines(ls)); plan.set("badcfg_kind", "garbage line"); }
 			cfgs.push(bad); plan.set("configs", cfgs);
 		}
 		static const char *kinds[] = {"debug", "normal", "normal", "serial_ok", "silent", "serial_fail", "badcfg"};
@@ -143,13 +149,14 @@ struct C16 : Prop {
 	std::vector<int> created_before;
 	std::map<std::string, int64_t> live_by_kind;
 	std::vector<std::string> transcripts, states;
+	int64_t live_after_loaded = -1;
 	uint64_t leak_checks = 0, shutdown_msgs = 0, compared = 0, robust_compared = 0, expiry_dependent_not_compared = 0;
 	std::set<int> thread_set_sizes;
 	size_t tev_begin = 0;
 
 	void attach(Engine &e) override {
 		world = cfg::from_json(e.plan["world"]);
-		live_by_kind.clear(); transcripts.clear(); states.clear(); leak_checks = shutdown_msgs = compared = robust_compared = expiry_dependent_not_compared = 0; thread_set_sizes.clear(); tev_begin = 0;
+		live_by_kind.clear(); live_after_loaded = -1; transcripts.clear(); states.clear(); leak_checks = shutdown_msgs = compared = robust_compared = expiry_dependent_not_compared = 0; thread_set_sizes.clear(); tev_begin = 0;
 	}
 
 	void on_session_start(Engine &e, int s, int ret) override {
@@ -223,6 +230,16 @@ struct C16 : Prop {
 					e.violate("LEAK", kind, "library-attributed live heap is " + std::to_string(live) + " bytes after stopping session " + std::to_string(s) + " but was " + std::to_string(it->second) + " after the previous '" + kind + "' session (" + std::to_string(live - it->second) + " bytes not released)");
 			}
 			live_by_kind[lk] = live;
+		}
+		// a start that was rejected must have released everything it allocated: not more library heap than after the last session that had loaded a
+		// configuration successfully (the process-lifetime allocations of parsing have been made by then)
+		if (sim::lib_total_allocs() > 0) {
+			if (kind == "badcfg" && live_after_loaded >= 0) {
+				leak_checks++;
+				if (live > live_after_loaded)
+					e.violate("LEAK", "badcfg", "library-attributed live heap is " + std::to_string(live) + " bytes after the rejected start of session " + std::to_string(s) + " (" + e.plan.gets("badcfg_kind", "missing file") + ") but was " + std::to_string(live_after_loaded) + " after the last session that had loaded a configuration (" + std::to_string(live - live_after_loaded) + " bytes not released)");
+			}
+			if (kind == "normal" || kind == "serial_ok") live_after_loaded = live;
 		}
 		alloc_marker = sim::lib_total_allocs();
 		// ---- transcript for the session-equality check
